@@ -68,11 +68,50 @@ def gen_cases(tier, seed):
                     for kind in ("generic", "symmetric"):
                         yield {"w": "dense", "shape": shape, "groups": groups, "kind": kind, "shuffle_groups": bool(rng.integers(0, 2)), "vals": vals,
                                "cseed": int(seed) * 141650939 % (2 ** 31) + next(cs)}
+    # tensors with more than 2^16 elements: symmetric, and symmetric except for one entry whose partner lies at the far end
+    for shp, groups in (([300, 300], [[0, 1]]), ([41, 41, 41], [[0, 1, 2]]), ([45, 40, 45], [[0, 2]]), ([17, 17, 17, 17], [[0, 1], [2, 3]])):
+        for kind in ("symmetric", "tail-off", "head-off"):
+            yield {"w": "dense_large", "shape": shp, "groups": groups, "kind": kind, "cseed": int(seed) * 141650939 % (2 ** 31) + next(cs)}
     for N in range(2, maxN):
         for s in (1, 2, 3):
             for R in (1, 2, 3):
                 for wk in ("positive", "mixed"):
                     yield {"w": "kruskal", "shape": [s] * N, "R": R, "wk": wk, "cseed": int(seed) * 141650939 % (2 ** 31) + next(cs)}
+
+
+def _dense_large(case, ctx, rng, shape, N):
+    groups = [list(g) for g in case["groups"]]
+    # integer-valued multiples of 24: the permutation average is exact, so the symmetric variant is symmetric bit for bit
+    A = refops.symmetrize(rng.integers(-40, 41, size=shape).astype(float) * 24.0, groups)
+    if case["kind"] != "symmetric":
+        # one entry differs from its permuted partners; it sits at the far (or near) corner of the index range
+        pos = [s_ - 1 - int(rng.integers(0, 2)) for s_ in shape] if case["kind"] == "tail-off" else [int(rng.integers(0, 2)) for _ in shape]
+        g0 = groups[0]
+        pos[g0[0]] = pos[g0[1]] - 1 if case["kind"] == "tail-off" else pos[g0[1]] + 1        # off the diagonal of the group
+        A[tuple(pos)] += 0.5
+    is_sym = refops.is_symmetric(A, groups)
+    if is_sym != (case["kind"] == "symmetric"):
+        raise AssertionError("generator: large symmetric / off-by-one-entry construction failed")
+    ctx.feat(N=N, kind=case["kind"], large=True, ngroups=len(groups))
+    garg = np.array(groups[0]) if len(groups) == 1 else np.array(groups)
+    T = ttb.tensor(A.copy())
+    for ver, det in ((None, False), (1, False), (None, True)):
+        kw = {} if ver is None else {"version": ver}
+        if det:
+            kw["return_details"] = True
+        r = ctx.call("tensor.issymmetric", T.issymmetric, garg.copy(), **kw)
+        if not r.ok:
+            ctx.check(False, "tensor.issymmetric", "RAISE:" + type(r.exc).__name__, f"{type(r.exc).__name__}: {r.exc} | {r.tb}", version=str(ver), details=det)
+            continue
+        ans = r.value[0] if det else r.value
+        ctx.check(bool(ans) == is_sym, "tensor.issymmetric", "WRONG", f"issymmetric(groups={groups}, version={ver}, details={det}) on a {shape} tensor says {ans}, truth {is_sym}",
+                  version=str(ver), details=det, truth=is_sym)
+    r = ctx.call("tensor.symmetrize", T.symmetrize, garg.copy())
+    if r.ok:
+        want = refops.symmetrize(A, groups)
+        ctx.check(close(denote(r.value), want, tol=1e-12), "tensor.symmetrize", "WRONG", f"symmetrize of a {shape} tensor is not the permutation average", version="None")
+    else:
+        ctx.check(False, "tensor.symmetrize", "RAISE:" + type(r.exc).__name__, f"{type(r.exc).__name__}: {r.exc} | {r.tb}", version="None")
 
 
 def run_case(case, ctx):
@@ -81,6 +120,8 @@ def run_case(case, ctx):
     N = len(shape)
     if case["w"] == "kruskal":
         return _kruskal(case, ctx, rng, shape, N)
+    if case["w"] == "dense_large":
+        return _dense_large(case, ctx, rng, shape, N)
     groups = [list(g) for g in case["groups"]]
     if case["shuffle_groups"]:
         groups = [[int(x) for x in rng.permutation(g)] for g in groups]
